@@ -80,6 +80,7 @@ func (ex *Exec) resetPath(prefix []int32) {
 	ex.pools = map[*Value][]Value{}
 	ex.onces = map[*Value]bool{}
 	ex.gos = nil
+	ex.gosDyn = nil
 	ex.parked = nil
 	ex.nowCount = 0
 	ex.lastNow = nil
